@@ -23,11 +23,11 @@ def parseChkA (s : String) : Option ChkA :=
   if s = "*" then none
   else
     let c := s.toList
-    some ⟨c.contains 'n', c.contains 'a', c.contains 'r', c.contains 'o', c.contains 'd', c.contains 'g', c.contains 'b'⟩
+    some ⟨c.contains 'n', c.contains 'a', c.contains 'r', c.contains 'o', c.contains 'd', c.contains 'g', c.contains 'b', c.contains 'h'⟩
 
-/-- `b`: the optional trailing boss field (absent = nil) -/
-def parseVals (n a r o d g : String) (b : String := "~") : Option ValsA := do
-  pure ⟨← Bytes.ofHex n, ← parseOpt a, ← parseList r, ← parseOpt o, ← parseOpt d, ← parseList g, ← parseOpt b⟩
+/-- `b`, `h`: the optional trailing boss and chief fields (absent = nil) -/
+def parseVals (n a r o d g : String) (b : String := "~") (h : String := "~") : Option ValsA := do
+  pure ⟨← Bytes.ofHex n, ← parseOpt a, ← parseList r, ← parseOpt o, ← parseOpt d, ← parseList g, ← parseOpt b, ← parseOpt h⟩
 
 def parseOp (s : String) : Option Op :=
   match s.splitOn ":" with
@@ -39,6 +39,13 @@ def parseOp (s : String) : Option Op :=
   | ["ua", id, n, a, r, o, d, g, c, b] => do pure (.updateA (← Bytes.ofHex id) (← parseVals n a r o d g b) (parseChkA c))
   | ["cc", id, n, a, r, o, d, g, code, pals, b] => do
     pure (.createA1 (← Bytes.ofHex id) (← parseVals n a r o d g b) (← Bytes.ofHex code) (← parseList pals))
+  | ["ca", id, n, a, r, o, d, g, b, h] => do pure (.createA (← Bytes.ofHex id) (← parseVals n a r o d g b h))
+  | ["ua", id, n, a, r, o, d, g, c, b, h] => do pure (.updateA (← Bytes.ofHex id) (← parseVals n a r o d g b h) (parseChkA c))
+  | ["cc", id, n, a, r, o, d, g, code, pals, b, h] => do
+    pure (.createA1 (← Bytes.ofHex id) (← parseVals n a r o d g b h) (← Bytes.ofHex code) (← parseList pals))
+  | ["c2", id, n, a, r, o, d, g, col, b, h] => do pure (.createA2 (← Bytes.ofHex id) (← parseVals n a r o d g b h) (← Bytes.ofHex col))
+  | ["u2", id, n, a, r, o, d, g, col, c, b, h] => do
+    pure (.updateA2 (← Bytes.ofHex id) (← parseVals n a r o d g b h) (← Bytes.ofHex col) (parseChkA c) (c.toList.contains 'c'))
   | ["c2", id, n, a, r, o, d, g, col] => do pure (.createA2 (← Bytes.ofHex id) (← parseVals n a r o d g) (← Bytes.ofHex col))
   | ["c2", id, n, a, r, o, d, g, col, b] => do pure (.createA2 (← Bytes.ofHex id) (← parseVals n a r o d g b) (← Bytes.ofHex col))
   | ["u2", id, n, a, r, o, d, g, col, c] => do
